@@ -42,7 +42,7 @@ Ctx == { Bin("add", Za, U("m")), Bin("mul", Za, U("s")), Bin("conv", Za, U("cm")
          List2(Za, U("kg")), CallF("f_sum", <<Za, U("s")>>) }
 
 NoExpr == E("none", << >>, "", <<0, 1>>, "")
-Seeds == { [cls |-> c, l |-> x] : c \in {"d1", "d2l", "d2r", "call", "agg", "two", "if"}, x \in Leaves }
+Seeds == { [cls |-> c, l |-> x] : c \in {"d1", "d2l", "d2r", "call", "agg", "two", "if", "udef"}, x \in Leaves }
 
 Completions(s) ==
   CASE s.cls = "d1" -> { [e1 |-> e, e2 |-> NoExpr] : e \in { Bin(op, s.l, y) : op \in BinOps, y \in Leaves }
@@ -56,8 +56,19 @@ Completions(s) ==
     [] s.cls = "agg" -> { [e1 |-> HeadOf(List2(s.l, y)), e2 |-> NoExpr] : y \in Leaves }
                         \cup { [e1 |-> Fld(Mk(s.l, y), f), e2 |-> NoExpr] : y \in Leaves, f \in {"a", "b"} }
                         \cup { [e1 |-> List2(s.l, y), e2 |-> NoExpr] : y \in LeavesSmall }
+                        \* a field of a struct that comes out of a generic function: its type is settled only by unification
+                        \cup { [e1 |-> Fld(HeadOf(List2(Mk(s.l, y), Mk(U("m"), U("s")))), f), e2 |-> NoExpr] : y \in LeavesSmall, f \in {"a", "b"} }
+                        \cup { [e1 |-> Bin(op, Fld(HeadOf(List2(Mk(s.l, U("s")), Mk(U("m"), U("s")))), f), z), e2 |-> NoExpr] :
+                                    op \in {"add", "mul"}, f \in {"a", "b"}, z \in LeavesSmall }
+                        \cup { [e1 |-> List2(Mk(s.l, y), Mk(U("m"), U("s"))), e2 |-> c] : y \in {U("s"), U("m")},
+                                    c \in { Fld(HeadOf(Za), "a"), Bin("add", Fld(HeadOf(Za), "a"), U("s")), Bin("add", Fld(HeadOf(Za), "b"), U("s")),
+                                            Bin("mul", Fld(HeadOf(Za), "a"), Fld(HeadOf(Za), "b")), Bin("lt", Fld(HeadOf(Za), "b"), U("m")) } }
     [] s.cls = "if" -> { [e1 |-> If(Bin("lt", s.l, y), z, w), e2 |-> NoExpr] : y \in LeavesSmall, z \in LeavesSmall, w \in Leaves }
                        \cup { [e1 |-> If(s.l, Two, Two), e2 |-> NoExpr] }
+    \* user-defined units: a second base unit of an existing dimension, a derived unit, a unit of a derived dimension
+    [] s.cls = "udef" -> { [e1 |-> Bin(op, s.l, U(u)), e2 |-> NoExpr] : op \in BinOps, u \in {"zbu", "zdu", "zau"} }
+                         \cup { [e1 |-> Bin(op, U(u), s.l), e2 |-> NoExpr] : op \in {"sub", "div", "conv"}, u \in {"zbu", "zdu", "zau"} }
+                         \cup { [e1 |-> Bin("pow", U(u), Two), e2 |-> Bin("add", Za, Bin("mul", s.l, s.l))] : u \in {"zbu", "zdu"} }
     [] s.cls = "two" -> { [e1 |-> d, e2 |-> c] : d \in { Bin(op, s.l, y) : op \in {"add", "mul", "div"}, y \in LeavesSmall }
                                                     \cup { s.l, Bin("pow", s.l, Two), Bin("pow", s.l, Bin("div", One, Two)), Bin("pow", s.l, Zero) }
                                                     \cup { CallF(f, <<s.l, y>>) : f \in {"f_quot", "f_mix"}, y \in {U("s"), U("m"), Two} },
@@ -76,14 +87,15 @@ T1 == TypeOf(EmptyEnv, cs.e1)
 Env2 == [x \in {"v_a"} |-> T1]
 T2 == IF cs.e2.op = "none" THEN Poly ELSE IF IsErr(T1) THEN T1 ELSE TypeOf(Env2, cs.e2)
 
-ASSUME PrintT(<<"META", ToJson([setup |-> [i \in 1..11 |->
+ASSUME PrintT(<<"META", ToJson([setup |-> [i \in 1..15 |->
             CASE i = 1 -> StructText [] i = 2 -> FnDef("f_len").text [] i = 3 -> FnDef("f_sq").text [] i = 4 -> FnDef("f_sum").text
               [] i = 5 -> FnDef("f_inf").text [] i = 6 -> FnDef("f_where").text [] i = 7 -> FnDef("f_sqrt").text
               [] i = 8 -> FnDef("f_quot").text [] i = 9 -> FnDef("f_mix").text
-              [] i = 10 -> FnDef("f_shp").text [] i = 11 -> FnDef("f_shw").text]])>>)
+              [] i = 10 -> FnDef("f_shp").text [] i = 11 -> FnDef("f_shw").text
+              [] OTHER -> UnitDefTexts[i - 11]]])>>)
 
 \* MC sanity of the rule set itself: typing is total and well-formed
-TypeTotal == stage = 2 => T1.k \in {"dim", "poly", "bool", "list", "polylist", "struct", "err"}
+TypeTotal == stage = 2 => T1.k \in {"dim", "poly", "bool", "list", "polylist", "struct", "slist", "err"}
 
 EmitCase == stage = 2 =>
    PrintT(<<"CASE", ToJson([s1 |-> "let v_a = " \o Show(cs.e1), t1 |-> TypeJson(T1),
